@@ -1,5 +1,6 @@
 from __future__ import annotations
 
+import math
 from typing import TYPE_CHECKING, List, Tuple
 
 import numpy as np
@@ -41,6 +42,10 @@ def get_angle_spec_from_float(angle: float, tol: float = 1e-4) -> List[Tuple[int
     # Do the arithmetic in double precision, whatever numeric type was given
     # (a numpy float16/float32 would otherwise be decomposed in its own precision)
     angle = float(angle)
+    if abs(angle) > 64:
+        # `2 * np.pi` is 2.4e-16 short of a full turn and the remainder below loses that
+        # much for every turn it takes off. Let libm reduce a large angle exactly first.
+        angle = math.atan2(math.sin(angle), math.cos(angle))
     angle %= 2 * np.pi
     rest = angle / np.pi
 
